@@ -19,7 +19,8 @@ CONSTANTS
   DEV_CCBeforeLookup,     \* TRUE: credit control is performed before the session record is looked up
   DEV_Release400,         \* TRUE: a successful release is answered 400
   DEV_RefConcat,          \* TRUE: reference = supi \o consumer \o counter (no separators)
-  DEV_NoGuardOnRelease    \* TRUE: only the update path splits an over-full record
+  DEV_NoGuardOnRelease,   \* TRUE: only the update path splits an over-full record
+  DEV_KeepReleased        \* TRUE: a released session's reference stays in the subscriber's session map
 
 Min(a, b) == IF a < b THEN a ELSE b
 Max(a, b) == IF a > b THEN a ELSE b
@@ -142,7 +143,7 @@ Update(st, a) ==
       over  == DEV_LastRecordOverride /\ Len(ue0.recs) > 1
       found == known \/ over
   IN
-  IF ~found /\ ~DEV_CCBeforeLookup THEN [st |-> st, resp |-> [status |-> 400, ref |-> "", mui |-> <<>>]]
+  IF ~found /\ ~DEV_CCBeforeLookup THEN [st |-> st, resp |-> [status |-> 404, ref |-> "", mui |-> <<>>]]
   ELSE
   LET S     == CC(st, a.u, a.usage, a.trig)
       ue1   == S.st.ue[a.u]
@@ -165,14 +166,14 @@ Update(st, a) ==
   IN [st |-> [S.st EXCEPT !.ue[a.u] = ue2],
       resp |-> [status |-> 200, ref |-> "", mui |-> S.mui]]
 
-(* release: a = [u, ref, usage, trig] *)
+(* release: a = [u, ref, usage, trig, split] *)
 Release(st, a) ==
   IF a.u \notin Dom(st.ue) THEN [st |-> st, resp |-> [status |-> 400, ref |-> "", mui |-> <<>>]]
   ELSE
   LET ue0   == st.ue[a.u]
       known == a.ref \in Dom(ue0.cdr)
   IN
-  IF ~known /\ ~DEV_CCBeforeLookup THEN [st |-> st, resp |-> [status |-> 400, ref |-> "", mui |-> <<>>]]
+  IF ~known /\ ~DEV_CCBeforeLookup THEN [st |-> st, resp |-> [status |-> 404, ref |-> "", mui |-> <<>>]]
   ELSE
   LET S   == CC(st, a.u, a.usage, a.trig)
       ue1 == S.st.ue[a.u]
@@ -180,9 +181,14 @@ Release(st, a) ==
   IF S.panic THEN [st |-> S.st, resp |-> [status |-> 500, ref |-> "", mui |-> <<>>]]
   ELSE IF ~known THEN [st |-> S.st, resp |-> [status |-> 400, ref |-> "", mui |-> <<>>]]
   ELSE
-  LET idx  == ue1.cdr[a.ref]
-      rec1 == [ue1.recs[idx] EXCEPT !.conts = @ \o Ids(a.usage), !.cause = 0]
-      ue2  == [ue1 EXCEPT !.recs[idx] = rec1]
+  LET idx0 == ue1.cdr[a.ref]
+      sp   == a.split /\ ~DEV_NoGuardOnRelease
+      recsS == IF sp THEN Append(ue1.recs, [ue1.recs[idx0] EXCEPT !.conts = <<>>]) ELSE ue1.recs
+      idx  == IF sp THEN Len(recsS) ELSE idx0
+      rec1 == [recsS[idx] EXCEPT !.conts = @ \o Ids(a.usage), !.cause = 0]
+      cdr1 == IF sp THEN Upd(ue1.cdr, a.ref, idx) ELSE ue1.cdr
+      cdr2 == IF DEV_KeepReleased THEN cdr1 ELSE [r \in Dom(cdr1) \ {a.ref} |-> cdr1[r]]
+      ue2  == [ue1 EXCEPT !.recs = [recsS EXCEPT ![idx] = rec1], !.cdr = cdr2]
   IN [st |-> [S.st EXCEPT !.ue[a.u] = ue2],
       resp |-> [status |-> IF DEV_Release400 THEN 400 ELSE 204, ref |-> "", mui |-> <<>>]]
 
